@@ -318,4 +318,128 @@ theorem head_bracket_plain {h : Str} (hp : Plain h) : (h.head? == some '[') = fa
     have : c ≠ '[' := (hp c (by simp)).2.1
     simp [this]
 
+/-! ## a hostname holding `%` is no special host -/
+
+theorem mem_joinChar {sep c : Char} {l : List Str} (h : c ∈ joinChar sep l) :
+    c = sep ∨ ∃ g ∈ l, c ∈ g := by
+  induction l with
+  | nil => simp [joinChar] at h
+  | cons x xs ih =>
+    cases xs with
+    | nil => exact Or.inr ⟨x, by simp, by simpa [joinChar] using h⟩
+    | cons y ys =>
+      simp only [joinChar, List.mem_append, List.mem_cons] at h
+      rcases h with h | h | h
+      · exact Or.inr ⟨x, by simp, h⟩
+      · exact Or.inl h
+      · rcases ih h with e | ⟨g, hg, hc⟩
+        · exact Or.inl e
+        · exact Or.inr ⟨g, by simp [hg], hc⟩
+
+theorem not_isIPv4_of_percent {s : Str} (h : '%' ∈ s) : isIPv4 s = false := by
+  have hj : '%' ∈ joinChar '.' (splitChar '.' s) := by rw [joinChar_splitChar]; exact h
+  rcases mem_joinChar hj with e | ⟨g, hg, hc⟩
+  · cases e
+  · unfold isIPv4
+    simp only [Bool.and_eq_false_iff]
+    right
+    apply Bool.eq_false_iff.mpr
+    intro hall
+    have := List.all_eq_true.mp hall g hg
+    simp only [Bool.and_eq_true] at this
+    have := List.all_eq_true.mp this.2 _ hc
+    revert this; decide
+
+theorem not_localhost_of_percent {s : Str} (h : '%' ∈ s) : (lower s == "localhost".toList) = false := by
+  apply Bool.eq_false_iff.mpr
+  intro e
+  have e' : lower s = "localhost".toList := by simpa using e
+  have := mem_lower_of_mem (x := '%') (by decide) h
+  rw [e'] at this
+  revert this; decide
+
+theorem not_specialBody_of_percent {s : Str} (h : '%' ∈ s) : specialBody s = false := by
+  unfold specialBody
+  have h2 : specialAlt2 s = false := by
+    unfold specialAlt2
+    simp only [Bool.and_eq_false_iff]
+    right
+    apply Bool.eq_false_iff.mpr
+    intro hall
+    have := List.all_eq_true.mp hall _ h
+    revert this; decide
+  have h1 : specialAlt1 s = false := by
+    unfold specialAlt1
+    cases hs : splitAtFirst ':' s with
+    | none =>
+      show (lower s == "localhost".toList || isIPv4 s) = false
+      rw [not_localhost_of_percent h, not_isIPv4_of_percent h]; rfl
+    | some hp =>
+      obtain ⟨a, port⟩ := hp
+      have e := (splitAtFirst_eq_some.mp hs).1
+      rw [e] at h
+      simp only [List.mem_append, List.mem_cons] at h
+      rcases h with h | h | h
+      · show ((lower a == "localhost".toList || isIPv4 a) && port.all isAsciiDigit) = false
+        rw [not_localhost_of_percent h, not_isIPv4_of_percent h]; rfl
+      · cases h
+      · show ((lower a == "localhost".toList || isIPv4 a) && port.all isAsciiDigit) = false
+        simp only [Bool.and_eq_false_iff]
+        right
+        apply Bool.eq_false_iff.mpr
+        intro hall
+        have := List.all_eq_true.mp hall _ h
+        revert this; decide
+  simp [h1, h2]
+
+/-- a hostname holding `%` is no special host -/
+theorem not_isSpecialHost_of_percent {s : Str} (h : '%' ∈ s) : isSpecialHost s = false := by
+  unfold isSpecialHost
+  rw [not_specialBody_of_percent h]
+  simp only [Bool.false_or, Bool.and_eq_false_iff]
+  by_cases hl : s.getLast? = some '\n'
+  · right
+    apply not_specialBody_of_percent
+    have hne : s ≠ [] := by intro e; simp [e] at h
+    have hlast : s.getLast hne = '\n' := by
+      rw [List.getLast?_eq_some_getLast hne] at hl
+      simpa using hl
+    have := List.dropLast_concat_getLast hne
+    rw [← this, hlast] at h
+    simp only [List.mem_append, List.mem_singleton] at h
+    rcases h with h | h
+    · exact h
+    · cases h
+  · left; simpa using hl
+theorem percent_mem_pyHostname {n : Str} (h : '%' ∈ pyHostinfoHost n) : '%' ∈ pyHostname n := by
+  unfold pyHostname
+  simp only
+  cases hs : splitAtFirst '%' (pyHostinfoHost n) with
+  | none => exact absurd h (splitAtFirst_eq_none.mp hs)
+  | some az => simp
+
+theorem percent_mem_of_not_wfHostSA {n : Str} (hp : Plain (specHost n)) (h : wfHostSA n = false) :
+    '%' ∈ specHost n := by
+  rw [wfHostSA_of_plain hp] at h
+  by_cases hm : '%' ∈ specHost n
+  · exact hm
+  · have : noneOf ['%'] (specHost n) = true := by
+      apply noneOf_iff.mpr
+      intro c hc
+      simp only [List.mem_cons, List.not_mem_nil, or_false]
+      rintro rfl; exact hm hc
+    rw [this] at h; cases h
+
+/-- suffix-aware, a plain host with `%`: `.hostname` holds the `%`, is not empty and not special -/
+theorem pyHostname_percent_plain {n : Str} (hwf : wfNetloc n = true) (hp : Plain (specHost n))
+    (hpct : '%' ∈ specHost n) :
+    pyHostname n ≠ [] ∧ isSpecialHost (pyHostname n) = false := by
+  have hm : '%' ∈ pyHostname n := by
+    apply percent_mem_pyHostname
+    rw [pyHostinfoHost_wf hwf, unbracket_plain hp]; exact hpct
+  refine ⟨?_, not_isSpecialHost_of_percent hm⟩
+  intro e
+  rw [e] at hm
+  cases hm
+
 end Ural.Lru
